@@ -142,9 +142,12 @@ Definition resolve_fixed (x xr : list Qc) (m : fixed_mode) : res (list nat * lis
 
 (** integral_matching_reference_stretch (s = None) *)
 Definition match_ref (x y xr yr : list Qc) (m : fixed_mode) (rt rr : rule) : res (list Qc) :=
+  (* after the repair of D11 the target rule is validated before anything else *)
+  match rt with UnknownRule => Raise ValueError | _ =>
   let? fr := resolve_fixed x xr m in
   let? iv := integral xr yr rr in
   let targets := sum_over_indices iv (snd fr) in
-  interval_match rt x y targets (fst fr).
+  interval_match rt x y targets (fst fr)
+  end.
 
 End WithPow.
